@@ -5,6 +5,7 @@
   validator, vanishing staked weight, weight overflow); the model mirrors those and the checks report them.
 -/
 import AllianceProofs
+import Generated.Facts
 namespace Alliance
 namespace C17
 open Dec
@@ -56,6 +57,11 @@ theorem decay_passes_range_check (a : Asset) (n : Nat) (w2 : Dec) (hmm : a.wmin 
   have := decayedWeight_in_range a n w2 hmm h
   unfold Dec at *
   omega
+
+/-- fact (regenerated from the source on every run): the step list of `alliance.EndBlocker` is the modelled one -/
+theorem endblock_steps_as_modelled : Generated.endBlockSteps =
+    ["CompleteRedelegations", "CompleteUnbondings", "GetAllAssets", "InitializeAllianceAssets", "DeductAssetsHook",
+     "RewardWeightChangeHook", "RebalanceHook"] := by decide
 
 end C17
 end Alliance
